@@ -195,4 +195,11 @@ Fixpoint ls_run (fill : T) (svd_fixed : bool) (ops : list ls_op) (s : ls_state) 
     end
   end.
 
+(* loading a problem: setDataSize n, then rows 0..n-1 (row, y, w taken from the lists) *)
+Definition row_ops (rows : list (list T)) (ys ws : list T) (a m : nat) : list ls_op :=
+  map (fun i => OpSetRow i (nth i rows []) (nth i ys (nzero N)) (nth i ws (nzero N))) (seq a m).
+
+Definition load_ops (n : nat) (rows : list (list T)) (ys ws : list T) : list ls_op :=
+  OpSetDataSize n :: row_ops rows ys ws 0 n.
+
 End Ls.
